@@ -389,6 +389,117 @@ impl<'a> Gen<'a> {
         Pred(atoms)
     }
 
+    /// Queries whose on-disk plan depends on the primary-key order of the storage scan: the
+    /// optimizer turns a hash join on primary keys into a merge join, an aggregation grouped by
+    /// the primary key into a sort aggregation, and drops ORDER BY on the primary key. The
+    /// in-memory twin plans none of these.
+    pub fn gen_order_plan_query(&mut self) -> Option<Stmt> {
+        let with_pk: Vec<TableDef> = self
+            .model
+            .tables
+            .values()
+            .filter(|(d, _)| d.pk.is_some())
+            .map(|(d, _)| d.clone())
+            .collect();
+        if with_pk.is_empty() {
+            return None;
+        }
+        let a = with_pk[self.rng.usize(with_pk.len())].clone();
+        let ak = a.cols[a.pk.unwrap()].clone();
+        // partner with the same key type: the table itself unless another one qualifies
+        let partners: Vec<TableDef> = with_pk
+            .iter()
+            .filter(|d| d.cols[d.pk.unwrap()].ty == ak.ty)
+            .cloned()
+            .collect();
+        let b = if self.rng.chance(1, 3) {
+            a.clone()
+        } else {
+            partners[self.rng.usize(partners.len())].clone()
+        };
+        let bk = b.cols[b.pk.unwrap()].clone();
+        let int_of = |d: &TableDef| -> Option<String> {
+            d.cols
+                .iter()
+                .enumerate()
+                .filter(|(i, c)| c.ty == Ty::Int && Some(*i) != d.pk)
+                .map(|(_, c)| c.name.clone())
+                .next()
+        };
+        let other = |g: &mut Self, d: &TableDef| -> String {
+            d.cols[g.rng.usize(d.cols.len())].name.clone()
+        };
+        let range = |g: &mut Self, d: &TableDef, alias: &str| -> String {
+            if g.rng.chance(1, 2) {
+                return String::new();
+            }
+            let mut p = g.gen_range_pred(d);
+            if !alias.is_empty() {
+                for a in p.0.iter_mut() {
+                    match a {
+                        Atom::Cmp { col, .. } | Atom::IsNull { col } | Atom::IsNotNull { col } => {
+                            *col = format!("{alias}.{col}");
+                        }
+                    }
+                }
+            }
+            p.sql()
+        };
+        let sql = match self.rng.usize(7) {
+            0 | 1 | 2 => {
+                let jt = *self
+                    .rng
+                    .pick(&["JOIN", "JOIN", "LEFT JOIN", "RIGHT JOIN", "FULL JOIN"]);
+                let xa = other(self, &a);
+                let yb = other(self, &b);
+                let mut on = format!("x.{} = y.{}", ak.name, bk.name);
+                if let (Some(ia), Some(ib), true) = (int_of(&a), int_of(&b), self.rng.chance(1, 4)) {
+                    on.push_str(&format!(" AND x.{ia} <= y.{ib}"));
+                }
+                let w = if jt == "JOIN" { range(self, &a, "x") } else { String::new() };
+                format!(
+                    "SELECT x.{}, x.{xa}, y.{}, y.{yb} FROM {} x {jt} {} y ON {on}{w}",
+                    ak.name, bk.name, a.name, b.name
+                )
+            }
+            3 => {
+                let w = range(self, &a, "");
+                match int_of(&a) {
+                    Some(c) => format!(
+                        "SELECT {k}, count(*), sum({c}), min({c}) FROM {t}{w} GROUP BY {k}",
+                        k = ak.name,
+                        t = a.name
+                    ),
+                    None => format!(
+                        "SELECT {k}, count(*) FROM {t}{w} GROUP BY {k}",
+                        k = ak.name,
+                        t = a.name
+                    ),
+                }
+            }
+            4 => format!(
+                "SELECT x.{k}, count(*) FROM {ta} x JOIN {tb} y ON x.{k} = y.{k2} GROUP BY x.{k}",
+                k = ak.name,
+                k2 = bk.name,
+                ta = a.name,
+                tb = b.name
+            ),
+            5 => {
+                let w = range(self, &a, "");
+                format!("SELECT DISTINCT {} FROM {}{w}", ak.name, a.name)
+            }
+            _ => {
+                let c = partners[self.rng.usize(partners.len())].clone();
+                let ck = c.cols[c.pk.unwrap()].name.clone();
+                format!(
+                    "SELECT x.{}, z.{ck} FROM {} x JOIN {} y ON x.{} = y.{} JOIN {} z ON y.{} = z.{ck}",
+                    ak.name, a.name, b.name, ak.name, bk.name, c.name, bk.name
+                )
+            }
+        };
+        Some(Stmt::Raw(sql))
+    }
+
     pub fn gen_projection(&mut self, def: &TableDef) -> Vec<String> {
         if self.rng.chance(1, 2) {
             return vec![];
@@ -611,7 +722,14 @@ impl<'a> Gen<'a> {
                 .map(|c| c.name.clone())
                 .collect();
             let any = def.cols[self.rng.usize(def.cols.len())].name.clone();
-            match self.rng.usize(5) {
+            let arm = self.rng.usize(9);
+            if arm >= 5 {
+                match self.gen_order_plan_query() {
+                    Some(s) => s,
+                    None => Stmt::Raw(format!("SELECT {any}, count(*) FROM {table} GROUP BY {any}")),
+                }
+            } else {
+            match arm {
                 0 => Stmt::Raw(format!("SELECT {any}, count(*) FROM {table} GROUP BY {any}")),
                 1 => Stmt::Raw(format!("SELECT DISTINCT {any} FROM {table}")),
                 2 => match ints.first() {
@@ -642,6 +760,7 @@ impl<'a> Gen<'a> {
                         _ => Stmt::Raw(format!("SELECT count(*) FROM {table}")),
                     }
                 }
+            }
             }
         } else if take!(p.w_advance) {
             let ms = *self.rng.pick(&[1u64, 999, 1000, 1500, 2500, 60_000, 3_600_000]);
